@@ -179,12 +179,28 @@ func HostileMessage(g *Rand, known []wamp.ID) wamp.Message {
 	case 11:
 		return &wamp.Event{Subscription: HostileID(g, known), Publication: HostileID(g, known), Details: HostileDict(g), Arguments: hostileList(g)}
 	case 12:
+		switch g.Intn(6) {
+		case 0:
+			// testament with arbitrary publish options, published by the realm itself when the session ends
+			return &wamp.Call{Request: HostileID(g, known), Options: wamp.Dict{}, Procedure: "wamp.session.add_testament",
+				Arguments:   wamp.List{g.Pick("t.x", "t.", "", "a b", "wamp.session.on_leave"), hostileList(g), hostileKw(g)},
+				ArgumentsKw: wamp.Dict{"publish_options": HostileDict(g), "scope": g.Pick("destroyed", "detached", "", "x")}}
+		case 1:
+			return &wamp.Call{Request: HostileID(g, known), Options: HostileDict(g), Procedure: wamp.URI(g.Pick("wamp.session.kill", "wamp.session.kill_by_authid", "wamp.session.kill_by_authrole", "wamp.session.kill_all", "wamp.session.modify_details", "wamp.session.get", "wamp.subscription.get_events", "wamp.registration.get", "wamp.subscription.list_subscribers")),
+				Arguments: wamp.List{HostileValue(g, 1), HostileValue(g, 1)}, ArgumentsKw: hostileKw(g)}
+		case 2:
+			return &wamp.Call{Request: wamp.ID(g.Range(1, 4)), Options: HostileDict(g), Procedure: wamp.URI(g.Pick("p.g1", "p.g2", "p.slow", "p.echo")), Arguments: hostileList(g)}
+		}
 		return &wamp.Call{Request: HostileID(g, known), Options: HostileDict(g), Procedure: HostileURI(g), Arguments: hostileList(g), ArgumentsKw: hostileKw(g)}
 	case 13:
 		return &wamp.Cancel{Request: HostileID(g, known), Options: HostileDict(g)}
 	case 14:
 		return &wamp.Result{Request: HostileID(g, known), Details: HostileDict(g), Arguments: hostileList(g)}
 	case 15:
+		if g.Intn(3) == 0 {
+			// shared registrations under well-known names and arbitrary policies
+			return &wamp.Register{Request: wamp.ID(g.Range(1, 30)), Options: wamp.Dict{"invoke": g.Pick("foo", "foo", "roundrobin", "first", "last", "random", "single", "")}, Procedure: wamp.URI(g.Pick("p.g1", "p.g2"))}
+		}
 		return &wamp.Register{Request: HostileID(g, known), Options: HostileDict(g), Procedure: HostileURI(g)}
 	case 16:
 		return &wamp.Registered{Request: HostileID(g, known), Registration: HostileID(g, known)}
